@@ -26,6 +26,21 @@ func (c *c11canon) id(b []byte) int {
 
 func c11pub(k interface{ Raw() ([]byte, error) }) []byte { b, _ := k.Raw(); return b }
 
+// op codes: 0 account, 1 proof, 2 contact(i,j), 5 member/device in contact group, 6 multi-member
+// member/device (g), 9 account group pair, 10 export, 11 import from j (mode)
+var c11scripts = [][][5]int{
+	{{10, 0, 0, 0, 0}, {6, 1, 0, 0, 0}, {11, 1, 0, 0, 0}, {6, 1, 0, 0, 0}, {6, 0, 0, 0, 0}},
+	{{10, 0, 0, 0, 0}, {11, 1, 0, 0, 0}, {6, 1, 0, 0, 0}, {6, 0, 0, 0, 0}, {6, 1, 0, 0, 0}},
+	{{6, 1, 0, 1, 0}, {10, 0, 0, 0, 0}, {11, 1, 0, 0, 0}, {6, 1, 0, 1, 0}, {6, 0, 0, 1, 0}},
+	{{1, 1, 0, 0, 0}, {10, 0, 0, 0, 0}, {11, 1, 0, 0, 0}, {6, 1, 0, 0, 0}},
+	{{0, 1, 0, 0, 0}, {10, 0, 0, 0, 0}, {11, 1, 0, 0, 0}, {2, 1, 0, 0, 0}},
+	{{10, 0, 0, 0, 0}, {2, 1, 0, 0, 0}, {11, 1, 0, 0, 0}, {2, 1, 0, 0, 0}, {2, 0, 1, 0, 0}},
+	{{10, 0, 0, 0, 0}, {11, 1, 0, 0, 0}, {2, 1, 0, 0, 0}, {2, 0, 1, 0, 0}, {10, 1, 0, 0, 0}},
+	{{10, 0, 0, 0, 0}, {11, 1, 0, 0, 1}, {10, 1, 0, 0, 0}, {11, 1, 0, 0, 2}},
+	{{9, 1, 0, 0, 0}, {10, 0, 0, 0, 0}, {11, 1, 0, 0, 0}},
+	{{5, 1, 0, 0, 0}, {10, 0, 0, 0, 0}, {11, 1, 0, 0, 0}, {5, 1, 0, 0, 0}},
+}
+
 func TestVerifC11(t *testing.T) {
 	out := vharness.Open()
 	defer out.Close()
@@ -66,11 +81,27 @@ func TestVerifC11(t *testing.T) {
 		contact := map[string][]byte{} // unordered pair of account keys -> group identity
 		memberOf := map[string][]byte{} // proof key | group -> member key
 		nontrivial := false
+		// scripted histories first: every order of first use around an import (derive member key /
+		// contact group before or after the import, cached vs recomputed)
+		type spec struct{ x, i, j, g, mode int }
+		var script []spec
+		if it < len(c11scripts) {
+			for _, q := range c11scripts[it] {
+				script = append(script, spec{q[0], q[1], q[2], q[3], q[4]})
+			}
+		}
 		n := 3 + rng.Intn(9)
+		if script != nil {
+			n = len(script)
+		}
 		for j := 0; j < n; j++ {
-			i := rng.Intn(nStores)
+			sp := spec{rng.Intn(14), rng.Intn(nStores), rng.Intn(nStores), rng.Intn(len(groups)), rng.Intn(4)}
+			if script != nil {
+				sp = script[j]
+			}
+			i := sp.i
 			s := stores[i]
-			switch x := rng.Intn(14); {
+			switch x := sp.x; {
 			case x < 1:
 				k, err := s.GetAccountPrivateKey()
 				ops = append(ops, fmt.Sprintf("WOp %d OAccount", i))
@@ -89,7 +120,7 @@ func TestVerifC11(t *testing.T) {
 					obs = append(obs, fmt.Sprintf("CKey %d", cn.id(c11pub(k.GetPublic()))))
 				}
 			case x < 5: // contact group with another store's account
-				jx := rng.Intn(nStores)
+				jx := sp.j
 				if jx == i {
 					jx = (i + 1) % nStores
 				}
@@ -137,7 +168,7 @@ func TestVerifC11(t *testing.T) {
 					obs = append(obs, fmt.Sprintf("CPair %d %d", cn.id(c11pub(md.Member())), cn.id(c11pub(md.Device()))))
 				}
 			case x < 9: // member/device pair in a multi-member group
-				gi := rng.Intn(len(groups))
+				gi := sp.g
 				md, err := s.GetOwnMemberDeviceForGroup(groups[gi])
 				ops = append(ops, fmt.Sprintf("WOp %d (OMemberDevice GMulti %d)", i, 500000+gi))
 				if err != nil {
@@ -176,9 +207,9 @@ func TestVerifC11(t *testing.T) {
 					lastExport[i] = exp{a, p}
 				}
 			case x < 13: // import what another store exported (plain, swapped, or the same key twice)
-				jx := rng.Intn(nStores)
+				jx := sp.j
 				e, has := lastExport[jx]
-				mode := rng.Intn(4)
+				mode := sp.mode
 				if mode == 3 {
 					mode = 0
 				}
